@@ -77,7 +77,8 @@ def _work(job):
     params = job["params"]
     alphabet = getattr(mod, "ALPHABET", ())
     eng = Engine(qtimeout_ms=job.get("qtimeout_ms", 10000), alphabet=alphabet)
-    eng.frontier = [tuple(map(tuple, p)) if False else p for p in job["prefixes"]]
+    eng.frontier = list(job["prefixes"])
+    eng.xs_every = job.get("xs_every", 0)
     t_end = time.monotonic() + job["slice"]
     eng.deadline = t_end + 20  # a single path may overrun its slice by at most this
     shadow_every = job["shadow_every"]
@@ -162,8 +163,9 @@ def _work(job):
     out["stats"] = dict(
         decisions=eng.n_decisions, forks=eng.n_forks, realize=eng.n_realize, queries=eng.n_queries,
         solver_s=eng.solver_s, infeasible=eng.n_infeasible, inconclusive=eng.n_inconclusive,
-        checks=eng.n_checks,
+        checks=eng.n_checks, xs_checked=eng.xs_checked, xs_agree=eng.xs_agree, xs_unknown=eng.xs_unknown,
     )
+    out["xs_disagree"] = eng.xs_disagree
     if prof_funcs is not None:
         out["functions"] = sorted(prof_funcs)
     return out
@@ -202,6 +204,8 @@ def run_property(pid, tier, seed, wall_budget=None, verbose=True):
     inflight = {}
     jid = 0
     slice_s = 6.0 if tier == "quick" else 15.0
+    xs_every = int(os.environ.get("VERIF_XSOLVER", "0" if tier == "quick" else "400"))
+    xs_disagree = []
 
     def submit():
         nonlocal jid
@@ -217,7 +221,7 @@ def run_property(pid, tier, seed, wall_budget=None, verbose=True):
                 prefixes = s.pending.popleft()
                 job = dict(pid=pid, sid=s.sid, h=s.spec["h"], params=s.spec.get("params", {}), prefixes=prefixes,
                            slice=slice_s, shadow_every=shadow_every, profile=not s.profiled,
-                           qtimeout_ms=s.spec.get("qtimeout_ms", 10000))
+                           qtimeout_ms=s.spec.get("qtimeout_ms", 10000), xs_every=xs_every)
                 s.profiled = True
                 s.inflight += 1
                 inflight[jid] = (s, pool.apply_async(_work, (job,)), time.monotonic())
@@ -256,6 +260,7 @@ def run_property(pid, tier, seed, wall_budget=None, verbose=True):
                 errors.extend(out["errors"])
                 diverged.extend(out["diverged"])
                 shadow_bad.extend(out["shadow_bad"])
+                xs_disagree.extend(out.get("xs_disagree", []))
                 if out["violations"] or out["errors"] or out["diverged"] or out["shadow_bad"]:
                     s.done = True
                     s.stopped = "finding"
@@ -291,6 +296,7 @@ def run_property(pid, tier, seed, wall_budget=None, verbose=True):
     res = dict(
         pid=pid, tier=tier, seed=seed, wall=wall, agg=agg, stats=dict(stats), violations=violations, errors=errors,
         diverged=diverged, shadow_bad=shadow_bad, samples=samples, functions=sorted(functions), fatal=fatal,
+        xs_disagree=xs_disagree,
         shards=[dict(h=s.spec["h"], params=s.spec.get("params", {}), paths=s.paths, exhausted=s.exhausted,
                      stopped=s.stopped, cpu_s=round(s.cpu, 2), queries=int(s.tot["queries"]),
                      solver_s=round(s.tot["solver_s"], 3)) for s in shards],
